@@ -38,17 +38,17 @@ structure IterParts (c : C) (active : List Src) (c1 c2 : C) : Prop where
   e : iter c active = reap { c2 with batch := [] }
 
 theorem mid_horizon {c : C} (hi : Mid c [] true) : Mid { c with horizon := c.nsock } [] false := by
-  obtain ⟨notDead, a1, a2, a3, a4, a5, a6, a7, a8, a9, a10, a11, a13, a14, a15, a16, s1, c1, c2, c3, c4, c5, c6, c7, c8, c9, c10, g1, g3, t1⟩ := hi
+  obtain ⟨notDead, a1, a2, a3, a4, a5, a6, a7, a8, a9, a10, a11, a13, a14, a15, a16, s1, c1, c2, c3, c4, c5, c6, c7, c8, c9, c10, g1, g3, h1, t1⟩ := hi
   constructor
   all_goals mid_auto3
 
 theorem mid_to_batch {c : C} (hi : Mid c [] false) : Mid { c with pending := [], batch := c.pending } c.pending true := by
-  obtain ⟨notDead, a1, a2, a3, a4, a5, a6, a7, a8, a9, a10, a11, a13, a14, a15, a16, s1, c1, c2, c3, c4, c5, c6, c7, c8, c9, c10, g1, g3, t1⟩ := hi
+  obtain ⟨notDead, a1, a2, a3, a4, a5, a6, a7, a8, a9, a10, a11, a13, a14, a15, a16, s1, c1, c2, c3, c4, c5, c6, c7, c8, c9, c10, g1, g3, h1, t1⟩ := hi
   constructor
   all_goals mid_auto3
 
 theorem mid_clear_batch {c : C} (hi : Mid c [] true) : Mid { c with batch := [] } [] true := by
-  obtain ⟨notDead, a1, a2, a3, a4, a5, a6, a7, a8, a9, a10, a11, a13, a14, a15, a16, s1, c1, c2, c3, c4, c5, c6, c7, c8, c9, c10, g1, g3, t1⟩ := hi
+  obtain ⟨notDead, a1, a2, a3, a4, a5, a6, a7, a8, a9, a10, a11, a13, a14, a15, a16, s1, c1, c2, c3, c4, c5, c6, c7, c8, c9, c10, g1, g3, h1, t1⟩ := hi
   constructor
   all_goals mid_auto3
 
@@ -137,10 +137,11 @@ theorem iter_gone_quiet (c : C) (hb : Bnd c) (hal : c.clientAlive = false) (acti
   obtain ⟨c1, c2, hp⟩ := iter_parts c active hb
   have hg2 := task_fold_grow c1.pending _ hp.ms
   rw [← hp.e2] at hg2
+  have hal1 : c1.clientAlive = false := by rw [hp.g1.alive]; exact hal
   have hal2 : c2.clientAlive = false := by
-    rw [hg2.alive]; show c1.clientAlive = false; rw [hp.g1.alive]; exact hal
+    rw [hg2.alive]; exact hal1
   have hns : Task.stopInLoop ∉ c2.pending := fun h => by
-    have := hg2.nostop h; cases this
+    have := hg2.nostop hal1 h; cases this
   rw [hp.e, reap_eq2 hp.m3]
   intro ho
   have ho : c2.sockSt[k]? = some SockSt.opened := ho
@@ -164,8 +165,8 @@ theorem task_fold_force (k : Nat) (rest : List Task) : ∀ (c : C), Mid c rest t
         have hcs : connSt c k = x.st := by simp [connSt, findConn_eq, hx]
         unfold runTask; simp only; rw [hcs]
         split
-        · rw [handleClose_conns, findIn_upd k k goDown (fun _ => rfl), hx]
-          exact ⟨_, rfl, by simp [updRec, (findIn_some hx).2, goDown]⟩
+        · rw [handleClose_find c k x hx]
+          exact ⟨_, rfl, by simp [goDown]⟩
         · rename_i hst
           exact ⟨x, hx, by cases h : x.st <;> simp_all⟩
       obtain ⟨y, hy, hys⟩ := hdown
